@@ -859,17 +859,31 @@ _G_STREAMSEG = T("TinkVerif.GlueTie", "seg_generateSegmentNonce_eq seg_generateS
                  "seg_Write_no_progress")
 _G_RAND = T("TinkVerif.GlueTie", "rand_MustRand_eq rand_GetRandomBytes_eq rand_GetRandomUint32_eq rand_NewBytesFromRand_eq "
             "rand_NewBytesFromRand_tape rand_GetRandomUint32_tape rand_GetRandomBytes_tape")
+_G_KEYSET = T("TinkVerif.GlueTie", "keyset_ValidateKeyVersion_eq keyset_constants keyset_constants_status keyset_validateKey_nil "
+              "keyset_validateKey_eq keyset_Validate_nil keyset_Validate_eq keyset_Validate_nilKey keyset_hasSecrets_eq keyset_hasSecrets_imp")
+_G_MANAGERID = T("TinkVerif.GlueTie", "managerId_newRandomKeyID_gen managerId_exhausted_gen managerId_fresh_gen "
+                 "managerId_newRandomKeyID_eq managerId_count_spec managerId_newRandomKeyID_ex managerId_fresh managerId_exhausted")
+_G_HPKECTX = T("TinkVerif.GlueTie", "hpke_createContext_eq hpke_createContext_negative goLabeledExtract_eq goLabeledExpand_eq "
+               "hpke_createContext_go hpke_createContext_go_isSome hpke_computeNonce_eq hpke_computeNonce_long hpke_computeNonce_length "
+               "hpke_computeNonce_minBE")
+_G_GCMSIV = T("TinkVerif.GlueTie", "gcmsiv_aesCTR_eq gcmsiv_aesCTR_out_length gcmsiv_aesCTR_tag_length gcmsiv_computeTag_eq gcmsiv_computeTag_model "
+              "gcmsiv_computeTag_polyval_length gcmsiv_computeTag_out_length gcmsiv_deriveKeys_eq gcmsiv_deriveKeys_nonce_length "
+              "gcmsiv_deriveKeys_authKey_length gcmsiv_deriveKeys_encKey_length gcmsiv_computePolyval_eq gcmsiv_computePolyval_new_err "
+              "polyvalObj_accumulate gcmsiv_Decrypt_eq gcmsiv_Decrypt_eq_fuel gcmsiv_Decrypt_too_short gcmsiv_Decrypt_ct_too_long "
+              "gcmsiv_Decrypt_ad_too_long")
 _G_SIV = T("TinkVerif.GlueTie", "siv_zeroBlock_eq siv_multiplyByX_loop_inv siv_multiplyByX_eq siv_padXor_eq siv_s2v_eq siv_clearBits_eq "
            "siv_ctrCrypt_eq siv_xorBE_length siv_Encrypt_long siv_Encrypt_eq siv_Decrypt_eq aessiv_full_Encrypt_eq aessiv_full_Decrypt_eq")
 for _p, _mods, _thms in (
-        ("C01", ["Framing", "Aead", "Ctr", "Etm"], _G_FRAMING + _G_AEAD + _G_CTR + _G_ETM),
-        ("C02", ["Framing", "Aead", "Ctr", "Etm"], _G_FRAMING + _G_AEAD + _G_CTR + _G_ETM),
+        ("C01", ["Framing", "Aead", "Ctr", "Etm", "GcmSiv"], _G_FRAMING + _G_AEAD + _G_CTR + _G_ETM + _G_GCMSIV),
+        ("C02", ["Framing", "Aead", "Ctr", "Etm", "GcmSiv"], _G_FRAMING + _G_AEAD + _G_CTR + _G_ETM + _G_GCMSIV),
         ("C04", ["Framing", "Cmac", "CmacFull", "MacWrap"], _G_FRAMING + _G_CMAC + _G_CMACFULL + _G_MACWRAP),
         ("C05", ["Framing", "PrefixKeys", "Unreader"], _G_FRAMING + _G_PREFIXKEYS + _G_UNREADER),
-        ("C06", ["Hpke"], _G_HPKE), ("C07", ["Stream", "Unreader", "StreamSeg"], _G_STREAM + _G_UNREADER + _G_STREAMSEG),
-        ("C20", ["Rand"], _G_RAND),
+        ("C06", ["Hpke", "HpkeCtx"], _G_HPKE + _G_HPKECTX), ("C07", ["Stream", "Unreader", "StreamSeg"], _G_STREAM + _G_UNREADER + _G_STREAMSEG),
+        ("C20", ["Rand", "ManagerId"], _G_RAND + _G_MANAGERID),
         ("C08", ["Kwp", "KwpFull", "Cmac", "CmacFull", "Siv"], _G_KWP + _G_KWPFULL + _G_CMAC + _G_CMACFULL + _G_SIV),
-        ("C14", ["Unreader"], _G_UNREADER),
+        ("C11", ["ManagerId"], _G_MANAGERID),
+        ("C13", ["Keyset"], _G_KEYSET),
+        ("C14", ["Unreader", "Keyset"], _G_UNREADER + _G_KEYSET),
         ("C15", ["Cmac", "CmacFull", "Prf"], _G_CMAC + _G_CMACFULL + _G_PRF)):
     PROPS[_p]["lean"] = PROPS[_p]["lean"] + [_GT + m for m in _mods]
     PROPS[_p]["theorems"] = PROPS[_p]["theorems"] + [t for t in _thms if t not in PROPS[_p]["theorems"]]
